@@ -15,3 +15,70 @@ Print Assumptions C05_reset_is_new_modulo_log.
 Theorem C05_reset_forgets : forall c1 c2, ipv c1 = ipv c2 -> elog c1 = elog c2 -> ctx_reset c1 = ctx_reset c2.
 Proof. exact reset_forgets. Qed.
 Print Assumptions C05_reset_forgets.
+
+(* ---- histories: setter / render / reset steps on one context (Proofs/HistoryProofs.v) ---- *)
+From Coq Require Import String.
+From DT Require Import Model.Mods Model.VCase Proofs.HistoryProofs.
+
+(* a reset context with its log cleared IS a new context, whatever state it was in *)
+Theorem C05_reset_then_clear_is_new : forall c, clear_log (ctx_reset (clear_log c)) = ctx_new.
+Proof. exact reset_then_clear_is_new. Qed.
+Print Assumptions C05_reset_then_clear_is_new.
+
+(* whatever happened before a reset (failed renders, exits, open bound tags, aborted loops: all
+   inside [pre], unconstrained), the steps after it are judged exactly as on a new context.
+   [final_ctx hc pre c = Some c'] only says that no render of [pre] left the model (the harness
+   sets such a history aside: C05_history_set_aside) *)
+Theorem C05_history_after_reset : forall hc pre evs post c c',
+  final_ctx hc pre c = Some c' ->
+  check_history hc (pre ++ HReset evs :: post) c =
+  check_history hc pre c ++ [reset_verdict c' evs] ++ check_history hc post ctx_new.
+Proof. exact history_after_reset. Qed.
+Print Assumptions C05_history_after_reset.
+
+Theorem C05_history_set_aside : forall hc pre rest c,
+  final_ctx hc pre c = None -> check_history hc (pre ++ rest) c = check_history hc pre c.
+Proof. exact history_set_aside. Qed.
+Print Assumptions C05_history_set_aside.
+
+(* the unconditional form fails exactly for that reason (a tree outside the model: [HSkip]) *)
+Theorem C05_history_after_reset_unconditional_refuted : ~ history_after_reset_full_statement.
+Proof. exact history_after_reset_refuted. Qed.
+Print Assumptions C05_history_after_reset_unconditional_refuted.
+
+Theorem C05_context_after_reset_is_new : forall hc pre evs c c',
+  final_ctx hc pre c = Some c' -> final_ctx hc (pre ++ [HReset evs]) c = Some ctx_new.
+Proof. exact final_ctx_after_reset. Qed.
+Print Assumptions C05_context_after_reset_is_new.
+
+(* a render never reads the event log: on contexts that differ in the log only, output, error
+   and resulting context agree (but for the log), and both runs add the same events *)
+Theorem C05_log_does_not_influence_rendering : forall flits lookup budget depth t c1 c2 w,
+  same_but_log c1 c2 ->
+  out_same_but_log c1 c2 (render flits lookup budget depth t c1 w) (render flits lookup budget depth t c2 w).
+Proof. exact log_does_not_influence_rendering. Qed.
+Print Assumptions C05_log_does_not_influence_rendering.
+
+Theorem C05_log_does_not_influence_nodes : forall flits lookup budget inc ls c1 c2 w,
+  (forall t l c, inc t (push l c) = pushInc l (inc t c)) ->
+  same_but_log c1 c2 ->
+  out_same_but_log c1 c2 (run_nodes flits lookup budget inc ls c1 w) (run_nodes flits lookup budget inc ls c2 w).
+Proof. exact log_does_not_influence_nodes. Qed.
+Print Assumptions C05_log_does_not_influence_nodes.
+
+(* the equational form: more events below the log change nothing but the log *)
+Theorem C05_render_commutes_with_log : forall flits lookup budget depth t l c w,
+  render flits lookup budget depth t (push l c) w = pushO l (render flits lookup budget depth t c w).
+Proof. exact render_push. Qed.
+Print Assumptions C05_render_commutes_with_log.
+
+(* non-vacuity: a failing render, an exit inside an open jsonquote tag, a reset; the render after
+   the reset is the render on a new context; without the reset the left-over state shows *)
+Example C05_history_example :
+  check_history hc_ex (pre_ex ++ [HReset []; HRender t_quotes (Bs """q""") 0 []]) ctx_new = [HOk; HOk; HOk; HOk] /\
+  check_history hc_ex (pre_ex ++ [HRender t_quotes (Bs """q""") 0 []]) ctx_new = [HOk; HOk; HBad "5c22715c22" 15 0] /\
+  (match final_ctx hc_ex pre_ex ctx_new with Some c => chJQ c = true /\ List.length (vars c) = 1%nat | None => False end) /\
+  final_ctx hc_ex (pre_ex ++ [HReset []]) ctx_new = Some ctx_new /\
+  render [] (reg_lookup []) 10 8 t_quotes ctx_new (wr_new None 0) =
+  render [] (reg_lookup []) 10 8 t_quotes (clear_log (ctx_reset (clear_log ctx_new))) (wr_new None 0).
+Proof. exact history_reset_example. Qed.
